@@ -48,6 +48,10 @@ func roundTripCase(e *Env, v *codec.VEnv, prop string) error {
 		return nil
 	}
 	canonV, _ := codec.CanonValue(vb)
+	rxBytesBefore := 0
+	if rx != nil {
+		rxBytesBefore = rx.bytes
+	}
 	for _, route := range []string{"typed", "receive"} {
 		var io decObs
 		var perr string
@@ -76,7 +80,7 @@ func roundTripCase(e *Env, v *codec.VEnv, prop string) error {
 		if wf {
 			if io.R != "ok" {
 				e.Rep.Violate("impl", prop+"-wf-dec", "the encoding of a well-formed envelope is rejected by the "+route+" decoder: "+perr,
-					map[string]interface{}{"value": v, "wire": string(bytes)})
+					map[string]interface{}{"value": v, "wire": string(bytes), "rx_bytes_before": rxBytesBefore})
 				continue
 			}
 			got, _ := codec.CanonValue(io.Env)
@@ -102,8 +106,9 @@ func init() {
 				return err
 			}
 			var wrap struct {
-				Value *codec.VEnv `json:"value"`
-				Text  *string     `json:"text"`
+				Value  *codec.VEnv `json:"value"`
+				Text   *string     `json:"text"`
+				Before int         `json:"rx_bytes_before"`
 			}
 			if err := json.Unmarshal(b, &wrap); err != nil {
 				return err
@@ -113,6 +118,12 @@ func init() {
 			}
 			if wrap.Value == nil {
 				return fmt.Errorf("replay file has no value")
+			}
+			// a failure on the shared receive transport may depend on how much was received
+			// before: feed that many bytes of small valid envelopes first
+			filler := []byte(`{"id":"filler","state":"new"}`)
+			for fed := 0; fed < wrap.Before; fed += len(filler) + 1 {
+				implReceive(filler)
 			}
 			return roundTripCase(e, wrap.Value, "c01")
 		}
